@@ -19,8 +19,9 @@ class Unsupported(AnalysisError):
 
 
 class Raised(Exception):
-    def __init__(self, exc):
+    def __init__(self, exc, args=None):
         self.exc = exc
+        self.args_ = args     # evaluated constructor arguments of the exception when they could be computed
 
 
 class _Return(Exception):
@@ -74,6 +75,18 @@ class _Scope(dict):
             return self[k]
         except KeyError:
             return d
+
+
+def _is_generator_fn(fn):
+    todo = list(fn.body)
+    while todo:
+        n = todo.pop()
+        if isinstance(n, (ast.FunctionDef, ast.AsyncFunctionDef, ast.Lambda, ast.ClassDef)):
+            continue
+        if isinstance(n, (ast.Yield, ast.YieldFrom)):
+            return True
+        todo.extend(ast.iter_child_nodes(n))
+    return False
 
 
 def _load(t):
@@ -146,6 +159,7 @@ class Result:
     def __init__(self):
         self.ret = None
         self.raised = None
+        self.raised_args = None
         self.effects = []
 
 
@@ -165,6 +179,8 @@ class FDE:
         self.depth = 0
         self.class_objs = {}     # (class name, attribute) -> Obj : class-level objects such as thread-local slots
         self.externals = {}      # dotted name -> python object (stdlib classes used in isinstance tests)
+        self.generators = False  # True: a call of a generator function evaluates to the list of the values it yields
+        self._yields = []
         self.extcalls = {}       # dotted name -> python callable standing in for an external function (e.g. inspect.signature)
 
     # -- public --------------------------------------------------------------------------
@@ -176,6 +192,7 @@ class FDE:
             r.ret = self._invoke(fi, list(args), dict(kwargs))
         except Raised as e:
             r.raised = e.exc
+            r.raised_args = e.args_
         r.effects = list(self.effects)
         return r
 
@@ -219,11 +236,19 @@ class FDE:
             elif a.kwarg is not None:
                 env[a.kwarg.arg] = {}
             body = fi.node.body if isinstance(fi.node.body, list) else [ast.Return(value=fi.node.body)]
+            gen = self.generators and isinstance(fi.node.body, list) and _is_generator_fn(fi.node)
+            if gen:
+                self._yields.append([])
             try:
                 self._run(body, env, fi)
             except _Return as r:
+                if gen:
+                    return self._yields[-1]
                 return r.v
-            return None
+            finally:
+                if gen:
+                    out_ = self._yields.pop()
+            return out_ if gen else None
         finally:
             self.depth -= 1
 
@@ -252,6 +277,11 @@ class FDE:
                 if s.exc is not None:
                     e = s.exc.func if isinstance(s.exc, ast.Call) else s.exc
                     name = unparse(e).split('.')[-1]
+                    if name[:1].isupper() and isinstance(s.exc, ast.Call):
+                        try:
+                            raise Raised(name, [self._ev(a, env, fi) for a in s.exc.args])
+                        except Unsupported:
+                            pass
                     if not name[:1].isupper():
                         # `raise self._make_error(...)` / `raise err`: the exception object is computed
                         v = self._ev(s.exc, env, fi)
@@ -260,6 +290,14 @@ class FDE:
                         else:
                             raise Unsupported('raise of a computed value: %s' % unparse(s.exc))
                 raise Raised(name)
+            elif isinstance(s, ast.Expr) and isinstance(s.value, (ast.Yield, ast.YieldFrom)) and self._yields:
+                v = self._ev(s.value.value, env, fi) if s.value.value is not None else None
+                if isinstance(s.value, ast.YieldFrom):
+                    if not isinstance(v, (list, tuple)):
+                        raise Unsupported('yield from a non-concrete iterable')
+                    self._yields[-1].extend(v)
+                else:
+                    self._yields[-1].append(v)
             elif isinstance(s, ast.Expr) and isinstance(s.value, (ast.Yield, ast.YieldFrom)):
                 raise Yielded()
             elif isinstance(s, ast.Expr):
@@ -740,6 +778,8 @@ class FDE:
                 return ('exc', n)
             if n in self.repo.classes and n not in env and any(b.endswith('Error') or b in ('Exception',) for b in self.repo.mro(n)[1:] + [n]) and not self.repo.is_subclass(n, 'ConfigNode'):
                 return ('exc', n)
+            if n == 'id' and len(args) == 1 and n not in env:
+                return id(args[0])
             if n in _PURE_BUILTINS and n not in env and all(_concrete(a) for a in args) and all(_concrete(v) for v in kwargs.values()):
                 try:
                     r = _PURE_BUILTINS[n](*args, **kwargs)
@@ -826,8 +866,8 @@ class FDE:
             if isinstance(target, tuple) and target and target[0] == 'noop':
                 return None
             if isinstance(target, tuple) and target and target[0] == 'strmethod':
-                if all(isinstance(a, (str, int, tuple)) for a in args):
-                    return getattr(target[1], target[2])(*args)
+                if all(isinstance(a, (str, int, tuple)) or (isinstance(a, list) and all(isinstance(x, str) for x in a)) for a in args):
+                    return getattr(target[1], target[2])(*args, **kwargs)
                 raise Unsupported('str.%s on abstract arguments' % target[2])
             if isinstance(target, tuple) and target and target[0] == 'listmethod':
                 try:
